@@ -276,5 +276,7 @@ proof!(s_router_n2_reqid_only, 8, { route::<2, 1>(false, 7, 8) });
 proof!(s_router_n3_cid1, 6, { route::<3, 1>(false, 3, 4) });
 proof!(s_router_faults_n2_cid1, 5, { route::<2, 1>(true, 3, 4) });
 proof!(s_router_faults_n2_cid0, 5, { route::<2, 1>(true, 2, 3) });
+// a requestor fails in one round, a reply for the other one is routed in the next
+proof!(s_router_faults_n2_r2, 5, { route::<2, 2>(true, 3, 4) });
 // two replies in a row
 proof!(s_router_n2_two_replies, 5, { route::<2, 2>(false, 2, 4) });
